@@ -28,6 +28,9 @@ type MemCore struct {
 	enc zapcore.Encoder
 	r   *ring.Ring
 	mu  *sync.RWMutex
+	// cur, once a core has been derived, is the write position shared by a core and
+	// all cores derived from it (it points to the r field of the first of them)
+	cur **ring.Ring
 }
 
 /*MemLogger - a struct for ring buffered inmemory logger */
@@ -126,7 +129,11 @@ func (mc *MemCore) Write(ent zapcore.Entry, fields []zapcore.Field) error {
 	defer mc.mu.Unlock()
 
 	var entry *observer.LoggedEntry
-	r := mc.r
+	cur := &mc.r
+	if mc.cur != nil {
+		cur = mc.cur
+	}
+	r := *cur
 	v := r.Value
 	if v == nil {
 		entry = &observer.LoggedEntry{}
@@ -136,7 +143,7 @@ func (mc *MemCore) Write(ent zapcore.Entry, fields []zapcore.Field) error {
 	}
 	entry.Entry = ent
 	entry.Context = fields
-	mc.r = mc.r.Next()
+	*cur = r.Next()
 	return nil
 }
 
@@ -146,12 +153,18 @@ func (mc *MemCore) Sync() error {
 }
 
 func (mc *MemCore) clone() *MemCore {
-	mc.mu.RLock()
-	defer mc.mu.RUnlock()
+	// a derived core writes into the same buffer: it must share the write position and
+	// the lock with the core it is derived from, not start private copies of them
+	mc.mu.Lock()
+	defer mc.mu.Unlock()
+	if mc.cur == nil {
+		mc.cur = &mc.r
+	}
 	return &MemCore{
 		LevelEnabler: mc.LevelEnabler,
 		enc:          mc.enc.Clone(),
 		r:            mc.r,
-		mu:           &sync.RWMutex{},
+		mu:           mc.mu,
+		cur:          mc.cur,
 	}
 }
